@@ -24,7 +24,10 @@ pub broadcast proof fn ax_mul_req(a: Float, b: Float)
 {}
 #[verifier::external_body]
 pub broadcast proof fn ax_mul_val(a: Float, b: Float)
-    ensures rv(#[trigger] a.mul_spec(b)) == rv(a) * rv(b),
+    ensures
+        rv(#[trigger] a.mul_spec(b)) == rv(a) * rv(b),
+        // the commuted form is a consequence in the ring; stating it keeps proofs independent of operand order
+        rv(a.mul_spec(b)) == rv(b) * rv(a),
 {}
 #[verifier::external_body]
 pub proof fn ax_consts()
